@@ -351,7 +351,8 @@ def run_family(job, reserved):
         pj = list(universal_calls(job, "pyscript"))
         if pj:
             todo_pys.append(({"id": "p.u", "who": "pyscript", "sig": usig, "res": reserved, "calls": []},
-                             [(SH[j], shape_source(SH[j]), None, 1) for j in pj], g))
+                             [(SH[j], shape_source(SH[j]), None,
+                               sum(it["n"] for it in SH[j]["pos"]) + sum(len(it["names"]) for it in SH[j]["kws"])) for j in pj], g))
 
     async def pys_part(hass):
         pys = Pys()
